@@ -54,6 +54,8 @@ type vkNet struct {
 	unreach   bool
 	slowWrite bool
 	// a crashed host is frozen, not gone: its address still accepts connections, nothing ever reads them
+	// members live on IPv6 addresses
+	v6        bool
 	stall     bool
 	stallLim  time.Duration
 	held      []net.Conn
@@ -151,10 +153,16 @@ func (n *vkNet) now() int64 { return int64(time.Since(n.t0) / time.Millisecond) 
 func (n *vkNet) logEv(v ...int64) {
 	n.ev = append(n.ev, v)
 }
+func (n *vkNet) ipOf(i int) net.IP {
+	if n.v6 {
+		return net.ParseIP(fmt.Sprintf("fd00::%x", i%16+1))
+	}
+	return net.IPv4(10, 0, 0, byte(i%16+1)).To4()
+}
 func (n *vkNet) add(i int) *vkTr {
-	t := &vkTr{n: n, id: i, ip: net.IPv4(10, 0, 0, byte(i%16+1)).To4(), packetCh: make(chan *Packet, 8192), streamCh: make(chan net.Conn, 256)}
+	t := &vkTr{n: n, id: i, ip: n.ipOf(i), packetCh: make(chan *Packet, 8192), streamCh: make(chan net.Conn, 256)}
 	n.mu.Lock()
-	n.byAddr[fmt.Sprintf("%s:7946", t.ip)] = t
+	n.byAddr[net.JoinHostPort(t.ip.String(), "7946")] = t
 	n.mu.Unlock()
 	return t
 }
@@ -540,7 +548,9 @@ const (
 	vkChatty = 128
 	// a crashed host is frozen: connections to its address are accepted and never read
 	vkStall = 256
-	vkMax   = 32
+	// the members have IPv6 addresses
+	vkV6  = 512
+	vkMax = 32
 )
 
 type vkSim struct {
@@ -614,7 +624,7 @@ func vkProbeTimeout(pi time.Duration, div int64) time.Duration {
 	return pi / time.Duration(div)
 }
 
-func (s *vkSim) addr(i int) string { return fmt.Sprintf("10.0.0.%d:7946", i%16+1) }
+func (s *vkSim) addr(i int) string { return net.JoinHostPort(s.vn.ipOf(i).String(), "7946") }
 
 // kind 17 row: the incarnation a process had reached when it was stopped (nothing it announces later can leave it)
 func (s *vkSim) endOfLife(a int) {
@@ -719,6 +729,7 @@ func vkRun(t *testing.T, c *vfCase, st *vfStats) {
 	vn.unreach = c.Cfg[5]&vkUnreach != 0
 	vn.slowWrite = c.Cfg[5]&vkSlowWrite != 0
 	vn.stall = c.Cfg[5]&vkStall != 0
+	vn.v6 = c.Cfg[5]&vkV6 != 0
 	vn.stuck = map[*vkStuck]time.Time{}
 	// the longest deadline the code sets on a stream: the TCP fallback ping's (the awareness-scaled probe
 	// interval); push/pull and user streams use TCPTimeout = 2 probe intervals
@@ -900,6 +911,9 @@ func vkCfg(r *vfRng, kind int, N int) []int64 {
 	cfg := []int64{int64(kind), int64(N), pi, ptdiv, int64(r.n(4)), flags, awmax, smm, int64(r.n(1 << 30))}
 	if cfg[8]%4 == 0 {
 		cfg[5] |= vkStall
+	}
+	if (cfg[8]/4)%3 == 0 {
+		cfg[5] |= vkV6
 	}
 	mult := 2 + r.n(4)
 	for i := 0; i < N; i++ {
